@@ -1,5 +1,5 @@
 (* Replication copies every term into every image (C12): tuples shifted by (image number) * N, types unchanged, in image order. *)
-From Coq Require Import List Arith Bool Lia ZArith.
+From Coq Require Import List Arith Bool Lia ZArith Permutation.
 From Mofun Require Import Lib.NP Model.Atoms Proofs.DelProofs Proofs.ExtProofs Proofs.ReplProofs Proofs.WFProofs.
 Import ListNotations.
 
@@ -202,4 +202,55 @@ Proof.
   destruct T as [[Tb _] [[Ta _] [[Td _] [Ti _]]]].
   destruct Hwf as [Hs [[Kb Rb] [[Ka Ra] [[Kd Rd] [Ki Ri]]]]].
   split; [apply per_image_of; assumption|]. split; [apply per_image_of; assumption|]. split; apply per_image_of; assumption.
+Qed.
+Definition grid3 (ra rb rc : nat) : list (nat * nat * nat) :=
+  flat_map (fun k => flat_map (fun i => map (fun j => (i, j, k)) (seq 0 rb)) (seq 0 ra)) (seq 0 rc).
+
+Lemma flat_map_const_length {A B} (f : A -> list B) n l : (forall x, In x l -> length (f x) = n) -> length (flat_map f l) = length l * n.
+Proof. induction l as [|x l IH]; intros H; cbn [flat_map length]; [reflexivity|]. rewrite app_length, IH, (H x); [cbn; lia|left; reflexivity|intros y Hy; apply H; right; exact Hy]. Qed.
+
+Lemma grid3_length ra rb rc : length (grid3 ra rb rc) = ra * rb * rc.
+Proof.
+  unfold grid3. rewrite (flat_map_const_length _ (ra * rb)).
+  - rewrite seq_length. lia.
+  - intros k _. rewrite (flat_map_const_length _ rb); [rewrite seq_length; reflexivity|]. intros i _. rewrite map_length, seq_length. reflexivity.
+Qed.
+
+Lemma in_grid3 ra rb rc i j k : In (i, j, k) (grid3 ra rb rc) <-> i < ra /\ j < rb /\ k < rc.
+Proof.
+  unfold grid3. rewrite in_flat_map. split.
+  - intros [k' [Hk H]]. apply in_flat_map in H. destruct H as [i' [Hi H]]. apply in_map_iff in H. destruct H as [j' [E Hj]].
+    injection E as <- <- <-. apply in_seq in Hk, Hi, Hj. lia.
+  - intros [Hi [Hj Hk]]. exists k. split; [apply in_seq; lia|]. apply in_flat_map. exists i. split; [apply in_seq; lia|].
+    apply in_map_iff. exists j. split; [reflexivity|apply in_seq; lia].
+Qed.
+
+Lemma grid3_nodup ra rb rc : NoDup (grid3 ra rb rc).
+Proof.
+  unfold grid3. apply NoDup_flat_map; [apply seq_NoDup| |].
+  + intros k _. apply NoDup_flat_map; [apply seq_NoDup| |].
+    * intros i _. apply NoDup_map_inj; [|apply seq_NoDup]. intros x y _ _ E. injection E as E. exact E.
+    * intros x y b _ _ Hx Hy. apply in_map_iff in Hx, Hy. destruct Hx as [j1 [<- _]]. destruct Hy as [j2 [E _]]. injection E as E _. symmetry; exact E.
+  + intros x y b _ _ Hx Hy. apply in_flat_map in Hx, Hy. destruct Hx as [i1 [_ Hx]]. destruct Hy as [i2 [_ Hy]].
+    apply in_map_iff in Hx, Hy. destruct Hx as [j1 [<- _]]. destruct Hy as [j2 [E _]]. injection E as _ _ E. symmetry; exact E.
+Qed.
+
+(* a*b*c images *)
+Lemma all_mults_length ra rb rc : 0 < ra -> 0 < rb -> 0 < rc -> length (all_mults (ra, rb, rc)) = ra * rb * rc.
+Proof.
+  intros Ha Hb Hc. rewrite <- grid3_length. apply Permutation_length. apply NoDup_Permutation; [apply ucmults_nodup|apply grid3_nodup|].
+  intros [[i j] k]. rewrite in_grid3. exact (in_all_mults (ra, rb, rc) i j k Ha Hb Hc).
+Qed.
+
+Theorem replicate_counts a c ra rb rc R : a_cell a = Some c -> WF a ->
+  nonempty_tuples (bonds a) -> nonempty_tuples (angles a) -> nonempty_tuples (dihedrals a) -> nonempty_tuples (impropers a) ->
+  0 < ra -> 0 < rb -> 0 < rc -> replicate a (ra, rb, rc) = Some R ->
+  let M := ra * rb * rc in
+  natoms R = M * natoms a /\ length (k_tup (bonds R)) = M * length (k_tup (bonds a)) /\ length (k_tup (angles R)) = M * length (k_tup (angles a)) /\ length (k_tup (dihedrals R)) = M * length (k_tup (dihedrals a)) /\ length (k_tup (impropers R)) = M * length (k_tup (impropers a)).
+Proof.
+  intros Hc Hwf Nb Na Nd Ni Ha Hb Hcc H. cbv zeta. rewrite <- (all_mults_length ra rb rc Ha Hb Hcc).
+  destruct (replicate_terms_within_images a c (ra, rb, rc) R Hc Hwf Nb Na Nd Ni H) as [[Lb _] [[La _] [[Ld _] [Li _]]]].
+  split; [|repeat split; assumption].
+  destruct Hwf as [Hs _]. destruct (replicate_spec a c (ra, rb, rc) Hc Hs) as [R' [E [P _]]]. rewrite H in E. injection E as <-.
+  unfold natoms. rewrite P. rewrite (flat_map_const_length _ (length (a_pos a))); [reflexivity|]. intros m _. apply map_length.
 Qed.
